@@ -66,6 +66,7 @@ type c03Shape struct {
 	Multi   bool `json:",omitempty"` // the route is registered through Routes with three method names given as separate leading strings
 	Wrap    bool `json:",omitempty"` // a HandlerWrapper (the identity) is configured before anything is registered
 	Head    bool `json:",omitempty"` // AutoHead is on and the request is a HEAD request (served by the chain registered alongside the GET route)
+	Closed  bool `json:",omitempty"` // in every group, a nested group WITH a handler of its own (holding another route) is opened and closed before the next level / the probed route is registered: its handler is in no chain but its own
 	Prefix  bool `json:",omitempty"` // a sibling route is registered with a prefix of the probed route's handler list (one backing array, the last handler left out) and is served once before every probe
 	Refused bool `json:",omitempty"` // around every accepted Use call and the route registration, a Use / Get / Action call that is refused for a non-callable argument (the panic is recovered): nothing of a refused call is in any chain
 }
@@ -79,7 +80,7 @@ func (s c03Shape) n() int {
 }
 
 func (s c03Shape) String() string {
-	return fmt.Sprintf("mw=%d group=%d route=%d action=%v flat=%v late=%v swap=%v autohead=%v informational-statuses=%v handler-types=%d handler-wrapper=%v routes-with-three-method-strings=%v handler-less-nested-groups=%v extra-stand-ins=%d refused-registrations-around=%v sibling-route-on-a-prefix-of-the-handler-list=%v", s.M, s.G, s.R, s.Action, s.Flat, s.Late, s.Swap, s.Head, s.Info, s.Sig, s.Wrap, s.Multi, s.Hollow, s.SwapN, s.Refused, s.Prefix)
+	return fmt.Sprintf("mw=%d group=%d route=%d action=%v flat=%v late=%v swap=%v autohead=%v informational-statuses=%v handler-types=%d handler-wrapper=%v routes-with-three-method-strings=%v handler-less-nested-groups=%v extra-stand-ins=%d refused-registrations-around=%v sibling-route-on-a-prefix-of-the-handler-list=%v closed-nested-groups-with-handlers=%v", s.M, s.G, s.R, s.Action, s.Flat, s.Late, s.Swap, s.Head, s.Info, s.Sig, s.Wrap, s.Multi, s.Hollow, s.SwapN, s.Refused, s.Prefix, s.Closed)
 }
 
 type c03Ev struct {
@@ -275,6 +276,9 @@ func c03Build(s c03Shape, strMask int) *c03World {
 		nest = func(d int) {
 			if s.Hollow && d > 0 {
 				w.f.Group("/hollow", func() { w.f.Get(fmt.Sprintf("/h%d", d), func() {}) })
+			}
+			if s.Closed && d > 0 {
+				w.f.Group("/closed", func() { w.f.Get(fmt.Sprintf("/c%d", d), func() {}) }, alien)
 			}
 			if d == s.G {
 				get("/x", rh...)
@@ -592,6 +596,7 @@ func c03Shapes(maxN int, thorough bool) []c03Shape {
 						}
 						if g >= 1 {
 							out = append(out, c03Shape{M: m, G: g, R: r, Action: act, Hollow: true})
+							out = append(out, c03Shape{M: m, G: g, R: r, Action: act, Closed: true})
 						}
 						out = append(out, c03Shape{M: m, G: g, R: r, Action: act, Head: true})
 						out = append(out, c03Shape{M: m, G: g, R: r, Action: act, Refused: true})
@@ -610,7 +615,7 @@ func c03Shapes(maxN int, thorough bool) []c03Shape {
 }
 
 func c03Run(r *core.Run) {
-	r.Rule = "engine E: every handler program = stack shape (app middleware / nested group handlers / route handlers / optional action; handler types func(Context), func(Context) string, func(ResponseWriter, *Request), http.HandlerFunc, func(Context, *Request)) x one behaviour per position (action string over {Next, write, cancel, install a derived context, Next guarded by the handler's own recover} + terminal {return nothing, return \"\", return a string, panic}); each program is one request on a real Flame; stack variants: installed late, swapped by Handlers(), flat groups, AutoHead, informational statuses, a HandlerWrapper, Routes with several method strings, handler-less nested groups, refused Use/Get/Action calls (non-callable argument, recovered) around the accepted ones, a sibling route registered on a prefix of the probed route's handler slice and served before every probe; the recorded event trace must be accepted by the trace automaton (chain order, at most once, none skipped, onion nesting, automatic advance iff nothing written and not cancelled, Next() completeness) and the response must equal what the trace implies; non-trivial = program with at least one Next() and at least one write/cancel/panic/returned string"
+	r.Rule = "engine E: every handler program = stack shape (app middleware / nested group handlers / route handlers / optional action; handler types func(Context), func(Context) string, func(ResponseWriter, *Request), http.HandlerFunc, func(Context, *Request)) x one behaviour per position (action string over {Next, write, cancel, install a derived context, Next guarded by the handler's own recover} + terminal {return nothing, return \"\", return a string, panic}); each program is one request on a real Flame; stack variants: installed late, swapped by Handlers(), flat groups, AutoHead, informational statuses, a HandlerWrapper, Routes with several method strings, handler-less nested groups, closed nested groups with a handler of their own, refused Use/Get/Action calls (non-callable argument, recovered) around the accepted ones, a sibling route registered on a prefix of the probed route's handler slice and served before every probe; the recorded event trace must be accepted by the trace automaton (chain order, at most once, none skipped, onion nesting, automatic advance iff nothing written and not cancelled, Next() completeness) and the response must equal what the trace implies; non-trivial = program with at least one Next() and at least one write/cancel/panic/returned string"
 	r.Assumptions = []string{"an explicit Next() after a write or after a cancel may start the next handler or not (the statement leaves it open); everything else is exact", "no Recovery in the stack (C15 covers it)"}
 	type plan struct {
 		minN, maxN int
@@ -661,7 +666,7 @@ func c03Run(r *core.Run) {
 		}
 		var jobs []job
 		for _, s := range shapes {
-			base := !(s.Flat || s.Late || s.Swap || s.Head || s.Info || s.Sig > 0 || s.Wrap || s.Multi || s.Hollow || s.Refused || s.Prefix)
+			base := !(s.Flat || s.Late || s.Swap || s.Head || s.Info || s.Sig > 0 || s.Wrap || s.Multi || s.Hollow || s.Refused || s.Prefix || s.Closed)
 			if s.n() < pl.minN || (pl.which == 1 && !base) || (pl.which == 2 && base) {
 				continue
 			}
